@@ -10,9 +10,20 @@ Obligations, all taken from the property text:
     record is framed consistently), and consumes the whole file;
   * every record the header announces reads back equal (float32 fields to 1e-6 relative, doubles exactly) and the
     header integers read back;
-  * writing what was read reproduces the file byte for byte.
+  * writing what was read reproduces the file byte for byte;
+  * every binary file is a sequence of records framed by two equal byte counts (independent walk over the bytes).
+Because reader and writer of a record are one and the same rw-routine, a round trip cannot see the ORDER in which a
+record lists its numbers; where the module documentation (or the CCCC-IV text it quotes) states that order, the bytes
+of one record are compared with it as well (ISOTXS/GAMISO scatter sub-blocks and record offsets LOCA, NHFLUX flux and
+current records, COMPXS scatter segments).
+
+Candidate genuine defects met on the unchanged tree are guarded by module-level flags KNOWN_DEFECT_* (search for them:
+fixsrc_reader_never_allocates, gamiso_label_becomes_isotxs, isotxs_subblocked_scatter_unreadable,
+pmatrx_activation_xs_records, pmatrx_order3_production_unreadable, dlayxs_ascii_unreadable, compxs_file_wide_chi,
+compxs_delayed_families, compxs_d2Multiplier_not_stored); each has its explanation next to it.
 """
 import io
+import re
 import struct
 
 import numpy as np
@@ -64,12 +75,19 @@ def _run_container(streamCls, data, mode, raw=None):
     return s._stream
 
 
+def _short(err):
+    """exception type and the last line of its text, without memory addresses (for the notes of the evidence)"""
+    lines = [ln for ln in str(err).strip().splitlines() if ln.strip()] or [""]
+    return "%s: %s" % (type(err).__name__, re.sub(r"0x[0-9a-f]+", "0x..", lines[-1].strip())[:200])
+
+
 class Cycle:
     """write -> read -> write again.  `write(data, binary)` returns the file contents, `read(raw, binary)` returns
     (container, number of characters consumed)."""
 
     def __init__(self, ctx, write, read, data, binary):
         self.raw = self.back = self.raw2 = None
+        self.binary = binary
         self.left = -1
         self.werr = self.rerr = self.w2err = None
         try:
@@ -88,14 +106,23 @@ class Cycle:
         except Exception as e:  # noqa: BLE001
             self.w2err = e
 
-    def framing_obligations(self, ctx, bytewise=True):
+    def framing_obligations(self, ctx):
+        """the obligations every format shares; False when there is nothing to compare any further"""
         ctx.check("writer accepts the well-formed container", self.werr is None)
-        ctx.check("reader accepts what the writer produced", self.werr is None and self.rerr is None)
+        if self.werr is not None:
+            ctx.note("writer raised " + _short(self.werr))
+            return False
+        if self.binary:
+            ctx.check("the binary file is a sequence of records, each framed by two equal byte counts equal to its "
+                      "payload length", records_of(self.raw) is not None)
+        ctx.check("reader accepts what the writer produced", self.rerr is None)
+        if self.rerr is not None:
+            ctx.note("reader raised " + _short(self.rerr))
+            return False
         ctx.check("reader consumes the whole file", self.left == 0)
-        if bytewise:
-            ctx.check("writing what was read reproduces the file byte for byte",
-                      self.raw is not None and self.raw2 == self.raw)
-        return self.back is not None
+        ctx.check("writing what was read reproduces the file byte for byte",
+                  self.w2err is None and self.raw2 == self.raw)
+        return True
 
 
 def same_array(a, b, rtol=1e-6):
@@ -185,12 +212,13 @@ def _fixsrc_write(arr, binary):
     return s._stream.getvalue()
 
 
-def _fixsrc_read_into(shape):
+def _fixsrc_read_into(shape, seen):
     def read(raw, binary):
         # fixsrc.readBinary: FIXSRC(fileName, "rb", np.zeros((0, 0, 0, 0)))
         s = fixsrc.FIXSRC("<memory>", _mode(False, binary), np.zeros(shape))
         s._stream = _mem(s._fileMode, raw)
         s.readWrite()
+        seen.update(s.fc, label=s.label, fileId=s.fileId)
         return s.fixSrc, s._stream.tell()
 
     return read
@@ -205,9 +233,13 @@ def fixsrc_roundtrip_for_every_header(ctx):
     want = src.copy()
     # readBinary() starts from an empty array; see KNOWN_DEFECT_fixsrc_reader_never_allocates
     shape = src.shape if KNOWN_DEFECT_fixsrc_reader_never_allocates else (0, 0, 0, 0)
-    c = Cycle(ctx, _fixsrc_write, _fixsrc_read_into(shape), src, True)
+    seen = {}
+    c = Cycle(ctx, _fixsrc_write, _fixsrc_read_into(shape, seen), src, True)
     if not c.framing_obligations(ctx):
         return
+    ctx.check("file control integers read back",
+              [seen.get(k) for k in ("ngroup", "ninti", "nintj", "nintk", "ndim", "nblok")] == [ng, ni, nj, nk, 3, 1]
+              and seen.get("label") == "FIXSRC" and seen.get("fileId") == 1)
     ok = same_array(want, c.back, rtol=0.0)
     if ctx.canary and ni == 2 and nj == 3 and ng == 2:
         ok = False
@@ -236,7 +268,7 @@ def _labels_read(raw, binary):
                        "distances iff NHTS1>0 or NHTS2>0, nuclide set labels iff NSETS>1, aliases iff NALIAS>0); "
                        "control-rod and burnup records are not implemented by armi (counts 0)",
          stubs=STUBS, max_paths=3000,
-         instances={"quick": [dict(binary=True)], "thorough": [dict(binary=True), dict(binary=False)]})
+         instances={"quick": [dict(binary=True), dict(binary=False)]})
 def labels_roundtrip_for_every_header(ctx, binary):
     nzone, nreg, narea = int(ctx.int("NTZSZ", 1, 2)), int(ctx.int("NREG", 1, 2)), int(ctx.int("NAREA", 0, 1))
     nh1, nh2 = int(ctx.int("NHTS1", 0, 2)), int(ctx.int("NHTS2", 0, 2))
@@ -363,13 +395,10 @@ def nhflux_roundtrip_for_every_header(ctx, adjoint, variant):
     ng, nz, na = int(ctx.int("NGROUP", 1, 2)), int(ctx.int("NINTK", 1, 2)), int(ctx.int("NINTXY", 1, 2))
     nsurf, nmom, nsc = int(ctx.int("NSURF", 1, 2)), int(ctx.int("NMOM", 1, 2)), int(ctx.int("NSCOEF", 1, 2))
     next_ = int(ctx.int("NEXT", 0, 1))
-    nmoms = int(ctx.int("NMOMS", 0, 1))
-    iwnhfl = int(ctx.int("IWNHFL", 0, 1))
-    nsym = int(ctx.int("NPCSYM", 0, 1))
-    if not variant:
-        ctx.assume(nmoms == 0)
-        ctx.assume(iwnhfl == 0)
-        ctx.assume(nsym == 0)
+    vhi = 1 if variant else 0                 # these three header words exist in the VARIANT layout only
+    nmoms = int(ctx.int("NMOMS", 0, vhi))
+    iwnhfl = int(ctx.int("IWNHFL", 0, vhi))
+    nsym = int(ctx.int("NPCSYM", 0, vhi))
     cls = nhflux.getNhfluxReader(adjoint, variant)
     write, read = _nhflux_io(cls)
     d = nhflux.NHFLUX(variant=variant)
@@ -407,6 +436,33 @@ def nhflux_roundtrip_for_every_header(ctx, adjoint, variant):
             ok = False
         ctx.check("record data announced by the header reads back: %s" % n, ok)
     ctx.check("header reads back", header_ok(written, c.back.metadata, keys))
+    # Reader and writer are one routine, so a round trip cannot see in which order a record lists its numbers; the
+    # module's record descriptions can: the first flux record (first group on the file, axial node 1) is
+    # ((FLUX(I,J),I=1,NMOM),J=1,NINTXY) [VARIANT: followed by the odd-parity moments in the same arrangement], and an
+    # axial-current record "loops through surface FIRST and assemblies SECOND" (NSCOEF values for each).  NHFLUX lists
+    # the groups in order, NAFLUX in reversed order.
+    recs = records_of(c.raw)
+    gFirst, gLast = (ng - 1, 0) if adjoint else (0, ng - 1)
+    flux = want["fluxMomentsAll"]
+    expect = [flux[j, 0, i, gFirst] for j in range(na) for i in range(nmom)]
+    expect += [flux[j, 0, nmom + i, gFirst] for j in range(na) for i in range(nmoms)]
+    ctx.check("first flux-moment record lists the moments of each assembly in turn, as the module describes",
+              recs is not None and len(recs) > 3 and len(recs[3]) == 8 * len(expect)
+              and list(struct.unpack("%dd" % len(expect), recs[3])) == expect)
+    if iwnhfl != 1:
+        cur = want["partialCurrentsZAll"]
+        expect = [cur[i, nz, j, gLast, m] for j in range(2) for i in range(na) for m in range(nsc)]
+        ctx.check("last axial-current record lists all upward, then all downward currents, as the module describes",
+                  recs is not None and len(recs[-1]) == 8 * len(expect)
+                  and list(struct.unpack("%dd" % len(expect), recs[-1])) == expect)
+        hexc, ext = want["partialCurrentsHexAll"], want["partialCurrentsHex_extAll"]
+        expect = [hexc[i, nz - 1, j, gLast, m] for i in range(na) for j in range(nsurf) for m in range(nsc)]
+        expect += [ext[j, nz - 1, gLast, m] for j in range(next_) for m in range(nsc)]
+        k = -(nz + 1) - 1            # the last lateral-current record precedes the nz+1 axial-current records
+        ctx.check("last lateral-current record lists the outgoing currents of every assembly surface, then the "
+                  "incoming currents of the outer boundary, as the module describes",
+                  recs is not None and len(recs[k]) == 8 * len(expect)
+                  and list(struct.unpack("%dd" % len(expect), recs[k])) == expect)
     # the same bytes read with the class of the other flux type: everything group-dependent comes back group-reversed
     _, readOther = _nhflux_io(nhflux.getNhfluxReader(not adjoint, variant))
     other, _used = readOther(c.raw, True)
@@ -414,6 +470,7 @@ def nhflux_roundtrip_for_every_header(ctx, adjoint, variant):
     if iwnhfl != 1:
         ok = ok and same_array(other.partialCurrentsHexAll, want["partialCurrentsHexAll"][:, :, :, ::-1, :], rtol=0.0)
         ok = ok and same_array(other.partialCurrentsZAll, want["partialCurrentsZAll"][:, :, :, ::-1, :], rtol=0.0)
+        ok = ok and same_array(other.partialCurrentsHex_extAll, want["partialCurrentsHex_extAll"][:, :, ::-1, :], rtol=0.0)
     ctx.check("adjoint and real files differ exactly by group order", ok)
 
 
@@ -651,18 +708,21 @@ _NO_OPT = dict.fromkeys(_OPTIONAL_XS, 0)
 
 
 @harness("C09", bounds="ISOTXS / GAMISO (2 instances) scatter-band layout: groups 2..3; for the last block of the last "
-                       "nuclide every row has its own band width JBAND(g) and in-group position IJJ(g), all "
+                       "nuclide every row has its own band width JBAND(g) and in-group position IJJ(g) (4 groups in the thorough tier), all "
                        "combinations with 1 <= IJJ <= groups above+1 (up-scatter rows have IJJ > 1), IJJ <= JBAND <= "
                        "IJJ + groups below; sub-blocking NSBLOK 1..3; a second block present or not (LORD 0..1); two "
-                       "nuclides", stubs=STUBS, max_paths=3000,
-         instances={"quick": [dict(fmt="ISOTXS"), dict(fmt="GAMISO")]})
-def isotxs_scatter_band_layout_roundtrip(ctx, fmt):
-    ng = int(ctx.int("NGROUP", 2, 3))
-    nsblok = int(ctx.int("NSBLOK", 1, 3))
+                       "nuclides; binary and ASCII", stubs=STUBS, max_paths=3000,
+         instances={"quick": [dict(fmt="ISOTXS", maxGroups=3, binary=True), dict(fmt="GAMISO", maxGroups=3, binary=True),
+                              dict(fmt="ISOTXS", maxGroups=3, binary=False)],
+                    "thorough": [dict(fmt=f, maxGroups=4, binary=e) for f in ("ISOTXS", "GAMISO") for e in (True, False)]})
+def isotxs_scatter_band_layout_roundtrip(ctx, fmt, maxGroups, binary):
+    ng = int(ctx.int("NGROUP", 2, maxGroups))
+    # see KNOWN_DEFECT_isotxs_subblocked_scatter_unreadable
+    nsblok = int(ctx.int("NSBLOK", 1, 1 if KNOWN_DEFECT_isotxs_subblocked_scatter_unreadable else 3))
     lord0 = int(ctx.int("LORD_first_block", 0, 1))
-    jjS = [ctx.int("IJJ_%d" % g, 1, 3) for g in range(3)]
-    bandS = [ctx.int("JBAND_%d" % g, 1, 3) for g in range(3)]
-    for g in range(3):
+    jjS = [ctx.int("IJJ_%d" % g, 1, maxGroups) for g in range(maxGroups)]
+    bandS = [ctx.int("JBAND_%d" % g, 1, maxGroups) for g in range(maxGroups)]
+    for g in range(maxGroups):
         if g < ng:
             ctx.assume(jjS[g] <= ng - g)                       # up-scatter sources are groups of the library
             ctx.assume(jjS[g] <= bandS[g])                     # the in-group entry lies inside the band
@@ -670,8 +730,6 @@ def isotxs_scatter_band_layout_roundtrip(ctx, fmt):
         else:
             ctx.assume(jjS[g] == 1)
             ctx.assume(bandS[g] == 1)
-    if KNOWN_DEFECT_isotxs_subblocked_scatter_unreadable:
-        ctx.assume(nsblok == 1)
     jjs, bands = [int(x) for x in jjS][:ng], [int(x) for x in bandS][:ng]
     fb, fj = _full_lower(ng)
     nuclides = [dict(key="FE56AA", name="FE56", fis=0, chi=0, opt=_NO_OPT, ltot=1, ltrn=1, strpd=0,
@@ -681,7 +739,7 @@ def isotxs_scatter_band_layout_roundtrip(ctx, fmt):
     lib = mk_xs_library(fmt, ng, nsblok, 0, nuclides)
     want = snapshot_xs_library(fmt, lib)
     write, read = _xs_io(fmt)
-    c = Cycle(ctx, write, read, lib, True)
+    c = Cycle(ctx, write, read, lib, binary)
     if not c.framing_obligations(ctx):
         return
     hit = ctx.canary and ng == 3 and jjs == [2, 1, 1] and bands == [2, 2, 3] and lord0 == 1
@@ -689,6 +747,8 @@ def isotxs_scatter_band_layout_roundtrip(ctx, fmt):
     # the scatter records themselves, against the CCCC-IV description of the 7D record: the last NSBLOK records of the
     # file are the sub-blocks of the last block of the last nuclide; together they hold, for J = 1..NGROUP, the JBAND(J)
     # values of the sources J+IJJ-1, ..., J, ..., J-(JBAND-IJJ)
+    if not binary:
+        return
     recs = records_of(c.raw)
     expect = [want["nuclides"][1]["scat"][1][g, col] for g in range(ng) for col in band_columns(g, bands[g], jjs[g])]
     got = b"".join(recs[-nsblok:]) if recs else b""
@@ -699,7 +759,7 @@ def isotxs_scatter_band_layout_roundtrip(ctx, fmt):
 @harness("C09", bounds="ISOTXS / GAMISO scatter block types: 1..2 blocks per nuclide (3 in the thorough tier), each "
                        "with a type flag out of {100, 200, 300, 0, 101, 102} (pairwise different) and LORD 0..1: all "
                        "combinations; 2 groups", stubs=STUBS, max_paths=3000,
-         instances={"quick": [dict(fmt="ISOTXS", maxBlocks=2)],
+         instances={"quick": [dict(fmt="ISOTXS", maxBlocks=2), dict(fmt="GAMISO", maxBlocks=2)],
                     "thorough": [dict(fmt="ISOTXS", maxBlocks=3), dict(fmt="GAMISO", maxBlocks=3)]})
 def isotxs_scatter_block_types_roundtrip(ctx, fmt, maxBlocks):
     ng = 2
@@ -731,8 +791,13 @@ def isotxs_scatter_block_types_roundtrip(ctx, fmt, maxBlocks):
     xs_library_obligations(ctx, fmt, want, c.back, canary_hit=hit)
     # one 7D record per block with LORD > 0 and nothing else: 3 leading records, then per nuclide 4D, 5D and the 7D's
     recs = records_of(c.raw)
+    n7d = sum(1 for x in lords[:nblk] if x > 0)
     ctx.check("the file holds exactly the records the isotope control flags announce",
-              recs is not None and len(recs) == 3 + 2 + sum(1 for x in lords[:nblk] if x > 0) + 2 + nblk)
+              recs is not None and len(recs) == 3 + 2 + n7d + 2 + nblk)
+    # the reader ignores the record offsets, so only the bytes can tell whether the writer got them right.  CCCC-IV:
+    # 'LOCA(I) number of records to be skipped to read data for isotope I, LOCA(1)=0' (last words of the 2D record)
+    ctx.check("file data record: LOCA(I) is the number of records to skip to reach isotope I",
+              recs is not None and len(recs) > 2 and list(struct.unpack("2i", recs[2][-8:])) == [0, 2 + n7d])
 
 
 @harness("C09", bounds="ISOTXS / GAMISO principal cross-section record: fission flag 0..1, nuclide chi flag 0..1, "
@@ -820,12 +885,9 @@ def _production(nuc, order):
 def pmatrx_roundtrip_for_every_header(ctx, binary):
     nn, ngam = int(ctx.int("numNeutronGroups", 1, 2)), int(ctx.int("numGammaGroups", 1, 2))
     dose, heat, gheat = bool(ctx.bool("hasDose")), bool(ctx.bool("hasHeating")), bool(ctx.bool("hasGammaHeating"))
-    order = int(ctx.int("maxScatteringOrder", 0, 3))
-    nxs = int(ctx.int("numberNeutronXS", 0, 1))
-    if KNOWN_DEFECT_pmatrx_activation_xs_records:
-        ctx.assume(nxs == 0)
-    if KNOWN_DEFECT_pmatrx_order3_production_unreadable:
-        ctx.assume(order <= 2)
+    # see the two KNOWN_DEFECT_pmatrx_* flags
+    order = int(ctx.int("maxScatteringOrder", 0, 2 if KNOWN_DEFECT_pmatrx_order3_production_unreadable else 3))
+    nxs = int(ctx.int("numberNeutronXS", 0, 0 if KNOWN_DEFECT_pmatrx_activation_xs_records else 1))
     lib = xsLibraries.IsotxsLibrary()
     md = lib.pmatrxMetadata
     for i, k in enumerate(_PMATRX_FILE_INTS):
@@ -1035,23 +1097,28 @@ def column_banded(ng, nup, ndn, base):
 @harness("C09", bounds="COMPXS: groups 2..3, two compositions; for the first one the per-group numbers of up- and "
                        "down-scattering groups NUP(g) in 0..groups below, NDN(g) in 0..groups above (all "
                        "combinations), fission spectrum flag ICHI 0..2 (0 = not fissile, 2 = chi matrix with 2 "
-                       "columns), maximum scattering order 0..1, file-wide chi flag 0..1, delayed families 0..1; "
-                       "binary and ASCII", stubs=STUBS, max_paths=3000,
-         instances={"quick": [dict(binary=True), dict(binary=False)]})
-def compxs_roundtrip_for_every_header(ctx, binary):
-    ng = int(ctx.int("NGROUP", 2, 3))
+                       "columns), maximum scattering order 0..1, file-wide chi flag 0..1, delayed families 0..2, families fed by "
+                       "the first composition 0..2; "
+                       "binary and ASCII (ASCII with 2 groups only in the quick tier)", stubs=STUBS, max_paths=3000,
+         instances={"quick": [dict(binary=True, maxGroups=3), dict(binary=False, maxGroups=2)],
+                    "thorough": [dict(binary=True, maxGroups=3), dict(binary=False, maxGroups=3)]})
+def compxs_roundtrip_for_every_header(ctx, binary, maxGroups):
+    ng = int(ctx.int("NGROUP", 2, maxGroups))
     ichi = int(ctx.int("ICHI", 0, 2))
     maxord = int(ctx.int("MAXORD", 0, 1))
-    fwchi, ndelay = int(ctx.int("ICHIST", 0, 1)), int(ctx.int("NDELAY", 0, 1))
+    # see the KNOWN_DEFECT_compxs_* flags
+    fwchi = int(ctx.int("ICHIST", 0, 0 if KNOWN_DEFECT_compxs_file_wide_chi else 1))
+    ndelay = int(ctx.int("NDELAY", 0, 0 if KNOWN_DEFECT_compxs_delayed_families else 2))
+    nkfam = int(ctx.int("NKFAM_0", 0, 2))
+    if not KNOWN_DEFECT_compxs_delayed_families:
+        ctx.assume(nkfam <= ndelay)           # a composition feeds only families the file has
+    # (while files with delayed families cannot be handled at all, the per-composition precursor records are still
+    # exercised, with NDELAY = 0 in the header)
     nupS = [ctx.int("NUP_%d" % g, 0, 2) for g in range(3)]
     ndnS = [ctx.int("NDN_%d" % g, 0, 2) for g in range(3)]
     for g in range(3):
         ctx.assume(nupS[g] <= (ng - 1 - g if g < ng else 0))
         ctx.assume(ndnS[g] <= (g if g < ng else 0))
-    if KNOWN_DEFECT_compxs_file_wide_chi:
-        ctx.assume(fwchi == 0)
-    if KNOWN_DEFECT_compxs_delayed_families:
-        ctx.assume(ndelay == 0)
     nup, ndn = [int(x) for x in nupS][:ng], [int(x) for x in ndnS][:ng]
     ncomp = 2
     lib = xsLibraries.CompxsLibrary()
@@ -1068,7 +1135,7 @@ def compxs_roundtrip_for_every_header(ctx, binary):
     lib.neutronVelocity, lib.neutronEnergyUpperBounds = grid((ng,), 1000.0) / 7.0, grid((ng,), 2000.0) / 7.0
     if ndelay:
         md["delayedChi"], md["delayedDecayConstant"] = grid((ndelay, ng), 0.2), grid((ndelay,), 0.3)
-    md["compFamiliesWithPrecursors"] = np.array([ndelay, 0])
+    md["compFamiliesWithPrecursors"] = np.array([nkfam, 0])
     md["fissionWattSeconds"], md["captureWattSeconds"] = grid((ncomp,), 5.0) / 7.0, grid((ncomp,), 6.0) / 7.0
     wantFile = {k: (np.array(v) if isinstance(v, np.ndarray) else v) for k, v in md.items()}
     want = []
@@ -1078,9 +1145,9 @@ def compxs_roundtrip_for_every_header(ctx, binary):
         up, dn = bandsOf[r]
         m["chiFlag"], m["numUpScatterGroups"], m["numDownScatterGroups"] = chiFlags[r], list(up), list(dn)
         if m["numPrecursorFamilies"]:
-            m["numFamI"] = [1]
+            m["numFamI"] = [k + 1 for k in range(nkfam)]
             for g in range(ng):
-                m["numPrecursorsProduced", g] = [g + 3]
+                m["numPrecursorsProduced", g] = [10 * g + k + 3 for k in range(nkfam)]
         for i, k in enumerate(_COMPXS_DIFF):
             m[k] = list(grid((ng,), 10.0 * (i + 1) + 100 * r) / 7.0)
         base = 10000.0 * (r + 1)
@@ -1100,6 +1167,18 @@ def compxs_roundtrip_for_every_header(ctx, binary):
     c = Cycle(ctx, _compxs_write, _compxs_read, lib, binary)
     if not c.framing_obligations(ctx):
         return
+    if binary:
+        # where the scatter data sit in the group records of the first composition, from the module's description of
+        # the record: principal cross sections (4, for a fissile composition also fission, nu-fission and ICHI chi
+        # values), then XSCATU = S(g', J) for g' = J+NUP(J) ... J+1, XSCATJ = S(J, J), XSCATD = g' = J-1 ... J-NDN(J)
+        recs = records_of(c.raw)
+        ok = recs is not None and len(recs) == 2 + ncomp * (1 + ng) + 1
+        for g in range(ng if ok else 0):
+            expect = [want[0]["scat"][0][row, g] for row in range(g + nup[g], g - ndn[g] - 1, -1)]
+            off = 8 * (4 + (2 + ichi if ichi else 0))
+            got = recs[3 + g][off:off + 8 * len(expect)]
+            ok = ok and len(got) == 8 * len(expect) and list(struct.unpack("%dd" % len(expect), got)) == expect
+        ctx.check("group records list up-scatter, in-group, down-scatter sources in the order the module describes", ok)
     b = c.back
     ok = True
     for k, w in wantFile.items():
@@ -1126,6 +1205,6 @@ def compxs_roundtrip_for_every_header(ctx, binary):
         got = [dense(reg.macros.totalScatter)] + [dense(reg.macros.higherOrderScatter.get(o))
                                                   for o in range(1, maxord + 1)]
         ok = all(same_array(v, g_, 0.0) for v, g_ in zip(w["scat"], got))
-        if ctx.canary and r == 0 and ng == 3 and nup == [1, 1, 0] and ndn == [0, 0, 2] and ichi == 2:
+        if ctx.canary and r == 0 and nup[0] == 1 and ndn[1] == 1 and ichi == 2 and maxord == 1 and nkfam == 1:
             ok = False
         ctx.check("composition %d: scattering matrices of every order read back for every band layout" % r, ok)
